@@ -4,7 +4,7 @@ from . import common as C
 from . import e2
 
 
-def run_e2(chk, src, name, timeout=60, harness_args=(), support=C.FEAT_MIN_SRCS, sig_prefix=None, max_group=64, extra_flags=(), case_filter=None, group_timeout=5, flips=True, max_flips_per_case=6, max_flips=4000):
+def run_e2(chk, src, name, timeout=60, harness_args=(), support=C.FEAT_MIN_SRCS, sig_prefix=None, max_group=64, extra_flags=(), case_filter=None, group_timeout=5, split=16, flips=True, max_flips_per_case=6, max_flips=4000):
     bdir = C.mkdir(os.path.join(C.BUILD, chk.pid, name))
     work = C.mkdir(os.path.join(bdir, 'smt'))
     for f in os.listdir(work):
@@ -15,6 +15,20 @@ def run_e2(chk, src, name, timeout=60, harness_args=(), support=C.FEAT_MIN_SRCS,
     rw = e2.run_harness(binary, dump, args=harness_args)
     d = e2.Dump(dump)
     cases = [c for c in d.cases if (case_filter is None or case_filter(c))]
+    # split cases with many obligations into chunks so that the solver work of one configuration is spread over all cores
+    if split:
+        nc = []
+        for c in cases:
+            eqs = c['eqs'] + [{'_deq': q} for q in c.get('deqs', [])]
+            if len(eqs) <= split:
+                nc.append(c); continue
+            for k in range(0, len(eqs), split):
+                part = eqs[k:k + split]
+                sub = dict(c); sub['eqs'] = [e for e in part if '_deq' not in e]; sub['deqs'] = [dict(e['_deq']) for e in part if '_deq' in e]
+                if k > 0:
+                    sub['facts'] = []; sub['wit'] = []
+                nc.append(sub)
+        cases = nc
     dumps = [d] * len(cases)
     # concolic branch exploration: every recorded "variable != constant" path condition is flipped by re-running the
     # harness for that case with the variable's shadow set to the constant (the other side of an exact-equality branch)
